@@ -274,6 +274,11 @@ def sorted_provenance(e, fn, depth=0):
         return None, 'strided slice'
     if isinstance(e, ast.Name):
         defs = [s for s in own_nodes(fn) if isinstance(s, ast.Assign) and any(isinstance(t, ast.Name) and t.id == e.id for t in s.targets)]
+        inplace = [s for s in own_nodes(fn) if isinstance(s, ast.Expr) and isinstance(s.value, ast.Call) and isinstance(s.value.func, ast.Attribute)
+                   and s.value.func.attr == 'sort' and isinstance(s.value.func.value, ast.Name) and s.value.func.value.id == e.id
+                   and not s.value.args and getattr(s, 'lineno', 0) < getattr(e, 'lineno', 1 << 30)]
+        if len(defs) == 1 and inplace and getattr(defs[0], 'lineno', 0) < inplace[-1].lineno:
+            return True, 'sorted in place (%s) after its only definition' % src(inplace[-1])
         if len(defs) == 1:
             return sorted_provenance(defs[0].value, fn, depth + 1)
         return None, '%d definitions' % len(defs)
@@ -547,7 +552,42 @@ def r19_9(ctx):
         return
     def sig(c):
         return (src(c.args[0]).replace(' ', ''), src(c.args[1]).replace(' ', '')) if len(c.args) >= 2 else None
-    pairs = {sig(c) for c in calls}
+    # a local helper (def / lambda) that forwards its two parameters to allclose: the obligation moves to ITS call sites
+    helpers = {}
+    for d_ in ast.walk(f.node):
+        if isinstance(d_, ast.FunctionDef) and d_ is not f.node and len(d_.args.args) == 2:
+            helpers[d_.name] = d_
+        if isinstance(d_, ast.Assign) and isinstance(d_.value, ast.Lambda) and len(d_.value.args.args) == 2 and isinstance(d_.targets[0], ast.Name):
+            helpers[d_.targets[0].id] = d_.value
+    moved = []
+    for c in list(calls):
+        for hname, h_ in helpers.items():
+            if any(c is x for x in ast.walk(h_)):
+                params = [a.arg for a in h_.args.args]
+                if sig(c) in ((params[0], params[1]), (params[1], params[0])):
+                    calls.remove(c)
+                    flip = sig(c) == (params[1], params[0])
+                    for site in [x for x in ast.walk(f.node) if isinstance(x, ast.Call) and isinstance(x.func, ast.Name) and x.func.id == hname and len(x.args) == 2]:
+                        a0, a1 = src(site.args[0]).replace(' ', ''), src(site.args[1]).replace(' ', '')
+                        moved.append((a1, a0) if flip else (a0, a1))
+                else:
+                    ctx.undecided('R19.9', f.qual, src(c)[:80], c, 'tolerance test inside a local helper with other operands')
+                    return
+    # operands read through local names (kv1, kv2 = self.kv, other.kv)
+    al = {}
+    for s_ in own_nodes(f.node):
+        if isinstance(s_, ast.Assign) and len(s_.targets) == 1:
+            t_, v_ = s_.targets[0], s_.value
+            if isinstance(t_, ast.Name):
+                al[t_.id] = src(v_).replace(' ', '')
+            elif isinstance(t_, ast.Tuple) and isinstance(v_, ast.Tuple) and len(t_.elts) == len(v_.elts):
+                for a_, b_ in zip(t_.elts, v_.elts):
+                    if isinstance(a_, ast.Name):
+                        al[a_.id] = src(b_).replace(' ', '')
+    pairs = {sig(c) for c in calls} | set(moved)
+    pairs = {(al.get(p_[0], p_[0]), al.get(p_[1], p_[1])) for p_ in pairs if p_ is not None}
+    if not calls and moved:
+        calls = [x for x in ast.walk(f.node) if isinstance(x, ast.Call) and (call_name(x) or '').split('.')[-1] in ('allclose', 'isclose')]
     symmetric = any(p_ is not None and (p_[1], p_[0]) in pairs for p_ in pairs)
     rtol0 = all((kwarg(c, 'rtol', 2) is not None and src(kwarg(c, 'rtol', 2)) in ('0', '0.0')) for c in calls)
     ctx.decide('R19.9', f.qual, src(calls[0])[:90], True if (symmetric or rtol0) else False, calls[0],
